@@ -29,6 +29,9 @@ func (c *Ctx) builtObject(v ssa.Value) *builtObj {
 		}
 		var al *ssa.Alloc
 		for _, rv := range returnValues(g) {
+			if k, isConst := rv.(*ssa.Const); isConst && k.IsNil() {
+				continue // "nothing to build" (willOf(session) when the session has no will): the caller tests for it
+			}
 			a, ok := core.Strip(rv).(*ssa.Alloc)
 			if !ok || (al != nil && a != al) {
 				return nil
